@@ -190,6 +190,8 @@ class MultiOperator(Operator):
     def copy(self, **kwargs):
         new = super().copy(**kwargs)
         new.operators = list(self.operators)
+        if np.ndim(new.duration) > 0:
+            new.duration = np.array(new.duration)  # `append` adds to it in place
         return new
 
     def append(self, op):
